@@ -47,6 +47,11 @@ pub fn check_c01(c: &TV, acc: &mut Acc, record: bool) -> Verdict {
             acc.sample(&class, sample_of(c, &bytes));
         }
     }
+    // what was written does not even have the framing of a value of this type (and would send the decoder into the
+    // count-driven loop of known finding F12): fail now instead of waiting for it
+    if let Err(vmodel::refcodec::DecErr::ZeroWidthFlood(n)) = ref_decode(&c.ty, &bytes) {
+        return Verdict::Fail(format!("the encoding {}… of {} ({} bytes) is not an encoding of that type: it announces {n} zero-width elements", hex(&bytes[..bytes.len().min(24)]), c.ty.render(), bytes.len()));
+    }
     match vcat::decode(&c.ty, &bytes) {
         Ok(v2) => {
             if canon(&c.ty, &v2) == canon(&c.ty, &c.val) {
